@@ -75,6 +75,7 @@ void Kernel::reset(const World &nw, uint64_t nsalt) {
   memset(kind_calls, 0, sizeof kind_calls);
   memset(fired_by_kind, 0, sizeof fired_by_kind);
   switches = clock_jumps = 0;
+  n_getcwd_erange = n_data_at_death = 0;
   cur = nullptr;
   last_task = -1;
   caller = nullptr;
